@@ -10,6 +10,10 @@
   R4 ownership        the axis that receives .sort() under sort=True is a fresh deep copy, never an input's own Axis
   R5 sort ascending   Axis.sort forwards to ndarray.sort (no reversal) and marks the axis monotonic; called without arguments
   R6 environment      NumPy names reachable from align() resolve in the pinned NumPy
+  R7 reindex pipeline (shared with C07)
+  R8 merge cast       _check_axes_merge leaves an operand uncast only when its kind is the common kind, and casts with a full-width
+                      dtype (never a bare kind character: 'f' as a dtype is float32, 'i' is int32)
+  R9 common kind      _get_cast_kind evaluated on every pair of kinds: equal -> same, object wins, float over int
 """
 from .. import terms as T
 from ..terms import const
@@ -292,31 +296,31 @@ def rule_fold(ctx):
         ctx.violated('R2', fi, '_get_aligned_axes', 'the common axis must be computed from the axes of the arrays that have the dimension (d in arrays[i].dims)')
 
 
-def rule_align(ctx):
-    ctx.rule('R3', 'align(): reindex step', 3)
+def rule_align(ctx, rid='R3'):
+    ctx.rule(rid, 'align(): reindex step', 3)
     fi = ctx.fn(AL + 'align')
     gaa = ctx.fn(AL + '_get_aligned_axes')
     ARR = P_('arrays')
     ev = run(ctx, fi, mode='join', oracle=lambda a, st: (True if (a[0] == 'call' and T.dotted(a[1]) == 'isinstance' and a[2][0] == ARR) else None))
     rets = ret_paths(ev)
-    ctx.require('R3', rets, 'align() has no returning path')
+    ctx.require(rid, rets, 'align() has no returning path')
     p = rets[0]
     # forwarding of the options
     calls = [e.a for e in p.calls('_get_aligned_axes')]
     if len(calls) != 1:
-        ctx.violated('R3', fi, '_get_aligned_axes', 'align must compute the common axes once')
+        ctx.violated(rid, fi, '_get_aligned_axes', 'align must compute the common axes once')
         return
     b = bind_call_args(calls[0], gaa)
     wrong = [k for k in ('join', 'axis', 'sort', 'strict') if b.get(k) != P_(k)]
     if wrong:
-        ctx.violated('R3', fi, T.show(calls[0])[:140], 'options %s are not forwarded to _get_aligned_axes' % wrong)
+        ctx.violated(rid, fi, T.show(calls[0])[:140], 'options %s are not forwarded to _get_aligned_axes' % wrong)
     else:
-        ctx.holds('R3', 'align forwards join/axis/sort/strict')
+        ctx.holds(rid, 'align forwards join/axis/sort/strict')
     axes_term = calls[0]
     # the reindex call
     rx = [e for e in p.calls('reindex_axis')]
     if not rx:
-        ctx.violated('R3', fi, 'reindex step', 'align never reindexes its inputs')
+        ctx.violated(rid, fi, 'reindex step', 'align never reindexes its inputs')
         return
     for e in rx:
         c = e.a
@@ -324,28 +328,28 @@ def rule_align(ctx):
         arg = c[2][0] if c[2] else None
         # loops: innermost loop must be the one that binds `o`
         if o[0] != 'elem':
-            ctx.undecide('R3', 'align: receiver of reindex_axis is not a loop element: %s' % T.show(o)[:100])
+            ctx.undecide(rid, 'align: receiver of reindex_axis is not a loop element: %s' % T.show(o)[:100])
             continue
         olid = o[2]
         if not e.loops or e.loops[-1] != olid:
-            ctx.violated('R3', fi, e.node, 'the array being reindexed is bound in an outer loop while the replacement arrays[i] = ... happens in an '
+            ctx.violated(rid, fi, e.node, 'the array being reindexed is bound in an outer loop while the replacement arrays[i] = ... happens in an '
                          'inner loop over the axes: every axis after the first reindexes the stale, not yet reindexed array and only the last '
                          'reindexing survives', node=e.node)
             continue
         if not (arg is not None and arg[0] == 'elem' and arg[1] == axes_term):
-            ctx.violated('R3', fi, e.node, 'each array must be reindexed on the common axis computed by _get_aligned_axes', node=e.node)
+            ctx.violated(rid, fi, e.node, 'each array must be reindexed on the common axis computed by _get_aligned_axes', node=e.node)
             continue
         # o must iterate the private list
         src = o[1]
         if src == ARR:
-            ctx.violated('R3', fi, e.node, 'align works on (and would modify) the caller\'s own list', node=e.node)
+            ctx.violated(rid, fi, e.node, 'align works on (and would modify) the caller\'s own list', node=e.node)
             continue
         # skip guards
         has_dim = [pol for a, pol in e.guards if a[0] == 'cmp' and a[1] == 'in' and a[2] == ('attr', arg, 'name') and a[3] == ('attr', o, 'dims')]
         if has_dim != [True]:
-            ctx.violated('R3', fi, e.node, 'arrays that do not have the dimension must be skipped (ax.name not in o.dims)', node=e.node)
+            ctx.violated(rid, fi, e.node, 'arrays that do not have the dimension must be skipped (ax.name not in o.dims)', node=e.node)
             continue
-        ctx.holds('R3', 'align: o.reindex_axis(ax) for arrays having the dimension; innermost loop binds o')
+        ctx.holds(rid, 'align: o.reindex_axis(ax) for arrays having the dimension; innermost loop binds o')
     # the store goes to a private copy of the list at the index of the same loop
     stores = [e for e in p.events if e.kind == 'store_sub' and e.loops]
     okc = False
@@ -353,17 +357,17 @@ def rule_align(ctx):
         if e.c[0] == 'call' and T.call_name(e.c) == 'reindex_axis':
             private = all(r[0] in ('comp', 'list') or (r[0] == 'call' and T.dotted(r[1]) in ('list', 'copy.copy')) for r in _roots(e.a))
             if not private:
-                ctx.violated('R3', fi, e.node, 'the reindexed array is stored into the caller\'s list: the input list is modified', node=e.node)
+                ctx.violated(rid, fi, e.node, 'the reindexed array is stored into the caller\'s list: the input list is modified', node=e.node)
             else:
                 o = T.call_receiver(e.c)
                 if e.b == ('idx', o[1], o[2]):
                     okc = True
                 else:
-                    ctx.violated('R3', fi, e.node, 'the reindexed array must replace the element it was computed from (arrays[i] with the same i)', node=e.node)
+                    ctx.violated(rid, fi, e.node, 'the reindexed array must replace the element it was computed from (arrays[i] with the same i)', node=e.node)
     if okc:
-        ctx.holds('R3', 'align: result stored at the same index of a private list copy')
+        ctx.holds(rid, 'align: result stored at the same index of a private list copy')
     if p.value[0] not in ('comp', 'setitem', 'phi', 'call') or p.value == ARR:
-        ctx.violated('R3', fi, 'return ' + T.show(p.value)[:100], 'align must return its private list of (possibly reindexed) arrays', node=p.node)
+        ctx.violated(rid, fi, 'return ' + T.show(p.value)[:100], 'align must return its private list of (possibly reindexed) arrays', node=p.node)
 
 
 def rule_sort_ownership(ctx):
@@ -424,6 +428,121 @@ def rule_sort_ownership(ctx):
             ctx.holds('R5', 'Axis.sort: self._values.sort()')
 
 
+WIDE_NAMES = {'float', 'int', 'object', 'np.float64', 'np.int64', 'np.object_', 'np.float_', 'np.int_', 'np.longdouble', 'complex'}
+WIDE_CONSTS = {'O', 'f8', 'i8', 'float64', 'int64', 'object', 'float', 'int', 'd', 'l', 'q', float, int, object}
+
+
+def _is_kind_term(t):
+    """a dtype *kind* character (x.dtype.kind, or the first item of _get_cast_kind)"""
+    if t[0] == 'attr' and t[2] == 'kind':
+        return True
+    if t[0] == 'item' and t[1][0] == 'call' and T.call_name(t[1]) == '_get_cast_kind' and t[2] == 0:
+        return True
+    return False
+
+
+def wide_dtype(t):
+    """True: a dtype that holds every int / float label exactly enough (float64 / int64 / object);
+    False: a bare kind character ('f' as a dtype is float32, 'i' is int32);  None: not recognised"""
+    if t[0] == 'name' or t[0] == 'attr':
+        d = T.dotted(t)
+        if d in WIDE_NAMES:
+            return True
+    if t[0] == 'const':
+        return True if t[1] in WIDE_CONSTS else (False if t[1] in ('f', 'i', 'u', 'e', 'f4', 'i4', 'float32', 'int32', 'float16') else None)
+    if _is_kind_term(t):
+        return False
+    table = None
+    if t[0] == 'call' and t[1][0] == 'attr' and t[1][2] == 'get' and t[1][1][0] == 'dict' and t[2]:
+        table, key, default = t[1][1], t[2][0], (t[2][1] if len(t[2]) > 1 else T.CONST_NONE)
+    elif t[0] == 'sub' and t[1][0] == 'dict':
+        table, key, default = t[1], t[2], None
+    if table is not None and _is_kind_term(key):
+        vals = dict((k[1], v) for k, v in table[1] if k[0] == 'const')
+        for k in ('f', 'i'):
+            v = vals.get(k)
+            if v is None:
+                if default is None:
+                    continue            # KeyError rather than a narrow cast
+                v = default
+            w = wide_dtype(v)
+            if w is not True:
+                return w
+        return True
+    if t[0] in ('ifexp', 'phi'):
+        parts = [wide_dtype(x) for x in (t[2:] if t[0] == 'ifexp' else t[1])]
+        if all(x is True for x in parts):
+            return True
+        if any(x is False for x in parts):
+            return False
+    return None
+
+
+def rule_merge_cast(ctx, r8='R8', r9='R9'):
+    """R8/R9: the kind reconciliation ahead of every union / intersection keeps each label exact"""
+    ctx.rule(r8, '_check_axes_merge: operands are cast only when their kind differs, and to a full-width dtype', 4)
+    fi = ctx.fn(AX + '_check_axes_merge')
+    ev = run(ctx, fi)
+    n = 0
+    for p in ret_paths(ev):
+        v = p.value
+        if v[0] != 'tuple' or len(v[1]) != 3:
+            ctx.violated(r8, fi, T.show(v)[:100], '_check_axes_merge must return (self-side, other-side, consistent flag)')
+            continue
+        for side, who in ((v[1][0], 'self'), (v[1][1], 'other')):
+            casts = [c for c in T.subterms(side) if c[0] == 'call' and T.call_name(c) == 'cast' and c[1][0] == 'attr']
+            samekind = [pol for a, pol in p.guards if a[0] == 'cmp' and a[1] == '==' and any(_is_kind_term(x) for x in (a[2], a[3]))
+                        and any(x[0] == 'attr' and x[2] == 'kind' and T.contains(x, P_(who)) and not T.contains(x, ('name', '_get_cast_kind')) for x in (a[2], a[3]))]
+            if not casts:
+                # left as it is: only allowed when its kind already is the common kind
+                if not any(pol is True for pol in samekind):
+                    ctx.violated(r8, fi, '%s side returned uncast' % who, 'the %s operand is returned without a cast on a path that does not establish '
+                                 'that its kind already equals the common kind: labels of different kinds are compared as they are' % who, node=p.state.events[-1].node if p.state.events else None)
+                else:
+                    n += 1
+                    ctx.holds(r8, '%s uncast only under kind == common kind' % who)
+                continue
+            for c in casts:
+                arg = c[2][0] if c[2] else T.kw(c, 'dtype')
+                w = wide_dtype(arg) if arg is not None else None
+                if w is False:
+                    ctx.violated(r8, fi, '%s.cast(<dtype kind character>)' % who, 'the %s operand is cast with a dtype *kind* character: as a dtype \'f\' is float32 and \'i\' is int32, '
+                                 'so int labels above 2**24 (or float64 labels) are rounded and the merged axis no longer contains the inputs\' labels' % who)
+                elif w is None:
+                    ctx.undecide(r8, 'cast argument %s of the %s operand not recognised' % (T.show(arg)[:80] if arg else None, who))
+                else:
+                    n += 1
+                    ctx.holds(r8, '%s.cast(<full-width dtype of the common kind>)' % who)
+    ctx.rule(r9, '_get_cast_kind: the common kind can represent both inputs (decision table over kind pairs)', 20)
+    fk = ctx.fn(AX + '_get_cast_kind')
+    kinds = ['i', 'u', 'f', 'O', 'U', 'S', 'b', 'M']
+    pnames = fk.params[:2]
+    for k0 in kinds:
+        for k1 in kinds:
+            ev = run(ctx, fk, bind={pnames[0]: const(k0), pnames[1]: const(k1)})
+            rets = [p.value for p in ret_paths(ev)]
+            if len(rets) != 1 or rets[0][0] != 'tuple' or rets[0][1][0][0] != 'const':
+                ctx.undecide(r9, '_get_cast_kind(%r, %r) does not evaluate to one constant result' % (k0, k1))
+                continue
+            got = rets[0][1][0][1]
+            want = None
+            if k0 == k1:
+                want = k0
+            elif 'O' in (k0, k1):
+                want = 'O'
+            elif 'f' in (k0, k1) and set((k0, k1)) <= set('iuf'):
+                want = 'f'
+            elif set((k0, k1)) == set('iu'):
+                want = ('i', 'O', 'f')
+            if want is None:
+                ctx.holds(r9, '(%s,%s) -> %s (unconstrained pair)' % (k0, k1, got))
+            elif got == want or (isinstance(want, tuple) and got in want):
+                ctx.holds(r9, '(%s,%s) -> %s' % (k0, k1, got))
+            else:
+                ctx.violated(r9, fk, '_get_cast_kind(%r, %r)' % (k0, k1), 'the common kind of %r and %r is %r, expected %r: labels of the wider kind would be truncated '
+                             'by the cast before the union / intersection' % (k0, k1, got, want))
+
+
 def rule_env(ctx):
     ctx.rule('R6', 'NumPy names reachable from align() resolve', 1)
     npapi.check_reachable(ctx, 'R6', [ctx.fn(AL + 'align'), ctx.fn(AX + 'Axis.union'), ctx.fn(AX + 'Axis.intersection')], depth=3)
@@ -434,6 +553,7 @@ def check(ctx):
     rule_fold(ctx)
     rule_align(ctx)
     rule_sort_ownership(ctx)
+    rule_merge_cast(ctx)
     rule_env(ctx)
     # the reindex step that align() delegates to (each input keeps its data at its labels, NaN elsewhere)
     from . import c07
